@@ -99,7 +99,15 @@ func newAlgoSUT(r *rng, algo, wrap string) *algoSUT {
 			c.ProbeMax = 2 * interval
 		}
 		tol := []float64{1, 1.5, 2}[r.intn(3)]
-		g := limit.NewGradientLimitWithRegistry(c.Name, c.Initial, c.Floor, c.Ceil, s.smoothing, functions.FixedQueueSizeFunc(c.Queue), tol, interval, nil, s.reg)
+		qf := functions.FixedQueueSizeFunc(c.Queue)
+		if r.chance(1, 2) {
+			// the default-style allowance max(queue, sqrt(limit)): at least c.Queue, and its floor is still max(minimum, queue)
+			qf = functions.SqrtRootFunction(c.Queue)
+			if sq := int(math.Sqrt(float64(c.Initial))); c.Initial < sq {
+				c.Initial = sq
+			}
+		}
+		g := limit.NewGradientLimitWithRegistry(c.Name, c.Initial, c.Floor, c.Ceil, s.smoothing, qf, tol, interval, nil, s.reg)
 		s.grad, s.inner = g, g
 		if c.Queue > c.Floor {
 			c.Floor = c.Queue // the reported estimate never goes below the queue allowance
@@ -454,6 +462,7 @@ func TestLimitTwin(t *testing.T) {
 		rtt      int64
 		inflight int
 		drop     bool
+		start    int64
 	}
 	for k := 0; k < n; k++ {
 		algo := algos[k%3]
@@ -473,17 +482,23 @@ func TestLimitTwin(t *testing.T) {
 		}
 		est := ref.outer.EstimatedLimit()
 		base := int64(1000)
+		clockT := int64(1e9)
 		hl := r.between(5, 80)
 		for i := 0; i < hl; i++ {
 			if b, set := ref.baseline(); set {
 				base = b
 			}
-			x := smp{pickRTT(r, base), pickInflight(r, est), r.chance(1, 8)}
+			x := smp{pickRTT(r, base), pickInflight(r, est), r.chance(1, 8), 0}
 			if x.rtt > 1<<40 {
 				x.rtt = base * 3
 			}
+			if k%2 == 1 {
+				// half of the prepared states are built from samples that carry their start time (completions in order)
+				clockT += 2 * base
+				x.start = clockT
+			}
 			hist = append(hist, x)
-			ref.outer.OnSample(0, x.rtt, x.inflight, x.drop)
+			ref.outer.OnSample(x.start, x.rtt, x.inflight, x.drop)
 			est = ref.outer.EstimatedLimit()
 			if ref.vegas != nil {
 				_, j := ref.vegas.VerifProbe()
@@ -502,7 +517,7 @@ func TestLimitTwin(t *testing.T) {
 				s.grad.VerifSetResetCounter(c0)
 			}
 			for i, x := range hist {
-				s.outer.OnSample(0, x.rtt, x.inflight, x.drop)
+				s.outer.OnSample(x.start, x.rtt, x.inflight, x.drop)
 				if s.vegas != nil {
 					s.vegas.VerifSetProbeJitter(jit[i])
 				}
@@ -524,7 +539,14 @@ func TestLimitTwin(t *testing.T) {
 		}
 		cands := []int64{b, b + 1, b + b/8, b + b/4, b + b/2, 2 * b, 3 * b, 4 * b, 8 * b, 20 * b}
 		w.write(J{"ev": "Reset", "trace": k, "cfg": ref.cfg, "obs": J{"est": ref.cfg.Initial, "listeners": 0}})
-		last := smp{0, []int{est, est / 2, est + 5, 0}[r.intn(4)], r.chance(1, 6)}
+		last := smp{0, []int{est, est / 2, est + 5, 0}[r.intn(4)], r.chance(1, 6), 0}
+		if k%2 == 1 {
+			// the final sample started around the time of the latest completions (possibly before the last one ended)
+			last.start = clockT + b*int64(r.between(-12, 3))
+			if last.start < 1 {
+				last.start = 1
+			}
+		}
 		for a := 0; a < len(cands); a++ {
 			for c := a + 1; c < len(cands); c++ {
 				lo, hi := cands[a], cands[c]
@@ -536,8 +558,8 @@ func TestLimitTwin(t *testing.T) {
 					w.write(J{"ev": "Twin", "trace": k, "i": 0, "algo": algo, "lo": chunks(lo), "hi": chunks(hi), "estlo": -1, "esthi": -2, "skip": false, "why": "twins diverged from the reference run"})
 					continue
 				}
-				o1 := s1.sample(0, lo, last.inflight, last.drop)
-				o2 := s2.sample(0, hi, last.inflight, last.drop)
+				o1 := s1.sample(last.start, lo, last.inflight, last.drop)
+				o2 := s2.sample(last.start, hi, last.inflight, last.drop)
 				skip := o1["probe"].(bool) || o2["probe"].(bool)
 				w.write(J{"ev": "Twin", "trace": k, "i": 0, "algo": algo, "lo": chunks(lo), "hi": chunks(hi), "inflight": last.inflight, "drop": last.drop,
 					"estlo": o1["est"], "esthi": o2["est"], "skip": skip, "why": "", "before": est})
